@@ -573,3 +573,42 @@ func dictSizes(rng *rand.Rand, lo, hi, sample int) []int {
 
 // dictIsNew reports whether the run has constants the model's expectation does not list.
 func dictHasNew() bool { loadDict(); return len(dictNewV) > 0 }
+
+// concurrentSame calls one derived function (a closure the library returned) from several goroutines at once on
+// the arguments it has already answered sequentially: a function of its argument gives the same answer whoever
+// else is calling it. A panic inside a goroutine is reported as a different answer.
+func concurrentSame(what string, f func(float64) float64, args, want []float64) {
+	if len(args) == 0 {
+		return
+	}
+	const workers = 8
+	var wg sync.WaitGroup
+	bad := make([]string, workers)
+	for g := 0; g < workers; g++ {
+		wg.Add(1)
+		go func(g int) {
+			defer wg.Done()
+			defer func() {
+				if r := recover(); r != nil {
+					bad[g] = fmt.Sprintf("%s: a concurrent call panicked: %v", what, r)
+				}
+			}()
+			for rep := 0; rep < 3; rep++ {
+				for k := range args {
+					i := (k*(2*g+1) + g) % len(args)
+					v := f(args[i])
+					if math.Float64bits(v) != math.Float64bits(want[i]) && !(math.IsNaN(v) && math.IsNaN(want[i])) {
+						bad[g] = fmt.Sprintf("%s: f(%v) = %v when called alone, %v when called concurrently", what, args[i], want[i], v)
+						return
+					}
+				}
+			}
+		}(g)
+	}
+	wg.Wait()
+	for _, b := range bad {
+		if b != "" {
+			panic(b)
+		}
+	}
+}
